@@ -322,14 +322,19 @@ class Patch:
         self.saved = []
 
     def __enter__(self):
-        for obj, name, val in self.triples:
-            self.saved.append((obj, name, getattr(obj, name)))
-            setattr(obj, name, val)
+        try:
+            for obj, name, val in self.triples:
+                self.saved.append((obj, name, getattr(obj, name)))
+                setattr(obj, name, val)
+        except Exception:
+            self.__exit__()
+            raise
         return self
 
     def __exit__(self, *a):
         for obj, name, val in reversed(self.saved):
             setattr(obj, name, val)
+        self.saved = []
         return False
 
 
@@ -450,6 +455,19 @@ def gen_null_case(rng, method):
     V[n - 1, n - 1] = t - cur
     case = {"dims": dims, "method": method,
             "v": [[int(z.real), int(z.imag)] for z in V.reshape(-1, order="F")]}
+    if method == "svd":
+        # the whole vh the scripted svd returns: random rows, the last one is conj(v)
+        vh = [[[rng.randint(-3, 3), rng.randint(-3, 3)] for _ in range(N)] for _ in range(N - 1)]
+        vh.append([[int(z.real), -int(z.imag)] for z in V.reshape(-1, order="F")])
+        case["vh"] = vh
+    if method == "eigen":
+        # dense-fallback decision: what the sparse / dense eigensolver return
+        case["sparse"] = rng.random() < 0.7
+        case["big"] = rng.random() < 0.5
+        W = np.array([[complex(rng.randint(-4, 4), rng.randint(-4, 4)) for _ in range(n)]
+                      for _ in range(n)])
+        W[n - 1, n - 1] = nice_divisor(rng) - (np.trace(W) - W[n - 1, n - 1])
+        case["v_other"] = [[int(z.real), int(z.imag)] for z in W.reshape(-1, order="F")]
     if method == "power":
         # largest modulus entry must be exactly representable: put 16 or 16i
         # on an off-diagonal element (does not change the trace)
@@ -490,19 +508,29 @@ def impl_null(case):
     rec = {}
     if case["method"] == "svd":
         def fake_svd(data, vecs=True, **kw):
-            vh = np.zeros((N, N), complex)
-            vh[-1, :] = v.conj()
-            vh[0, 0] = 1
+            vh = np.array([[complex(a, b) for a, b in row] for row in case["vh"]])
             return _data.Dense(np.eye(N, dtype=complex)), np.ones(N), _data.Dense(vh)
         with Patch((_data, "svd", fake_svd)):
             out = qt.steadystate(A, method="svd")
     elif case["method"] == "eigen":
+        # v is what the solver that ends up being used returns, v_other the other one
+        v_other = np.array([complex(a, b) for a, b in case["v_other"]])
+        use_sparse = case["sparse"] and not case["big"]
+        rec["eig_calls"] = []
+        LdL_max = float(np.abs(L.conj().T @ L).max())
+
         def fake_eig(self, *a, **kw):
+            sp_ = bool(kw.get("sparse", False))
+            rec["eig_calls"].append(sp_)
             rec["eig_kw"] = sorted(kw.keys())
-            ket = qt.operator_to_vector(qt.Qobj(v.reshape((n, n), order="F"), dims=[d, d]))
-            return np.array([0.0]), np.array([ket], dtype=object)
+            vec = (v if use_sparse else v_other) if sp_ else (v_other if use_sparse else v)
+            # the first answer fails the smallness test when case["big"], whichever
+            # solver gave it: only a sparse answer may trigger the fallback
+            val = 1.0 * max(LdL_max, 1.0) if (case["big"] and len(rec["eig_calls"]) == 1) else 0.0
+            ket = qt.operator_to_vector(qt.Qobj(vec.reshape((n, n), order="F"), dims=[d, d]))
+            return np.array([val]), np.array([ket], dtype=object)
         with Patch((qt.Qobj, "eigenstates", fake_eig)):
-            out = qt.steadystate(A, method="eigen")
+            out = qt.steadystate(A, method="eigen", sparse=case["sparse"])
     else:
         junk = np.array([complex(a, b) for a, b in case["junk"]])
         calls = {"n": 0, "rcm": False}
@@ -551,6 +579,16 @@ def impl_null(case):
 def null_expr(case):
     n = int(np.prod(case["dims"]))
     v = [complex(a, b) for a, b in case["v"]]
+    if case["method"] == "svd":
+        vh = [[complex(a, b) for a, b in row] for row in case["vh"]]
+        return "gz_svd_route %d%%nat %s" % (n, gzmat(vh))
+    if case["method"] == "eigen":
+        vo = [complex(a, b) for a, b in case["v_other"]]
+        use_sparse = case["sparse"] and not case["big"]
+        vs, vd = (v, vo) if use_sparse else (vo, v)
+        return ("(eigen_calls %s %s, gz_eigen_post %d%%nat (eigen_pick %s %s %s %s))"
+                % (vlib.cbool(case["sparse"]), vlib.cbool(case["big"]), n,
+                   vlib.cbool(case["sparse"]), vlib.cbool(case["big"]), gzvec(vs), gzvec(vd)))
     f = {"eigen": "gz_eigen_post", "svd": "gz_svd_post", "power": "gz_power_post"}[case["method"]]
     return "%s %d%%nat %s" % (f, n, gzvec(v))
 
@@ -624,6 +662,61 @@ def pinv_expr(case, rec=None):
         return "gz_pinv_rcm_R %d%%nat %s %s %s" % (n, cnatseq(case["rcm_order"]),
                                                   f(case["rho"]), f(case["LIQ"]))
     return "gz_pinv_R %d%%nat %s %s" % (n, f(case["rho"]), f(case["LIQ"]))
+
+
+# --------------------------------------------- correspondence: propagator loop
+def gen_expm_case(rng):
+    n = rng.choice([2, 3])
+    perm = rand_perm(rng, n)
+    rho = np.array([[complex(rng.randint(-3, 3), rng.randint(-3, 3)) for _ in range(n)]
+                    for _ in range(n)])
+    rho = rho + rho.conj().T
+    t = rng.choice([1, 2, 4, -2])
+    rho[n - 1, n - 1] += t - np.trace(rho)
+    return {"n": n, "perm": perm, "rho": [[[int(z.real), int(z.imag)] for z in row] for row in rho],
+            "kconv": rng.choice([0, 1, 2, 3, 5]), "max_iter": rng.choice([1, 2, 3, 4, 6]),
+            "phases": [rng.choice([[1, 0], [-1, 0], [0, 1], [0, -1]]) for _ in range(n)]}
+
+
+def expm_P(case):
+    n = case["n"]
+    S = np.zeros((n, n), complex)
+    for k in range(n):
+        S[case["perm"][k], k] = complex(*case["phases"][k])
+    return np.kron(S.conj(), S)          # vec(S rho S^dag), column stacking
+
+
+def impl_expm(case):
+    import sys
+    import qutip as qt
+    ssm = sys.modules["qutip.solver.steadystate"]
+    n = case["n"]
+    P = expm_P(case)
+    rho0 = np.array([[complex(a, b) for a, b in row] for row in case["rho"]])
+    A = qt.Qobj(np.zeros((n * n, n * n), complex), dims=[[[n], [n]], [[n], [n]]])
+    rec = {"dist_calls": 0, "expm_calls": 0}
+
+    def fake_expm(self, *a, **k):
+        rec["expm_calls"] += 1
+        return qt.Qobj(P.copy(), dims=self.dims)
+
+    def fake_dist(a, b):
+        k = rec["dist_calls"]
+        rec["dist_calls"] += 1
+        return 0.0 if k >= case["kconv"] else 1.0
+    try:
+        with Patch((qt.Qobj, "expm", fake_expm), (ssm, "hilbert_dist", fake_dist)), \
+                warnings.catch_warnings():
+            warnings.simplefilter("ignore")
+            out = qt.steadystate(A, method="propagator", rho=qt.Qobj(rho0),
+                                 propagator_max_iter=case["max_iter"])
+        rec["raised"] = False
+        rec["out"] = out.full()
+    except RuntimeError as e:
+        if "Did not converge" not in str(e):
+            raise
+        rec["raised"] = True
+    return rec
 
 
 # --------------------------------------- correspondence: solver result dispatch
@@ -1176,7 +1269,8 @@ def targeted_search(ctx, site, what, rng, stats):
         stats["targeted_systems_with_matching_cycle_ge_3"] = len(chosen)
         for s in chosen + others:
             oracle_system(ctx, s, cfgs, rng, stats, ["csr"])
-    elif site in ("corr:steadystate_eigen", "corr:steadystate_svd", "corr:steadystate_power"):
+    elif site in ("corr:steadystate_eigen", "corr:steadystate_svd", "corr:steadystate_power",
+                  "corr:steadystate_propagator"):
         m = site.split("_")[-1]
         cfgs = [c for c in allc if c[0].split("-")[0] == m]
         n = 0
@@ -1465,6 +1559,7 @@ CORR_TO_ORACLE = {"corr:steadystate_direct": ("steadystate:direct", "steadystate
                   "corr:steadystate_power": ("steadystate:power",),
                   "corr:pseudo_inverse": ("pseudo_inverse",),
                   "corr:heom.steady_state": ("heom.steady_state",),
+                  "corr:steadystate_propagator": ("steadystate:propagator",),
                   "corr:solve_dispatch": ("steadystate:iterative", "steadystate:direct",
                                           "steadystate:power")}
 
@@ -1685,6 +1780,56 @@ def run(ctx):
                           % (type(e).__name__, str(e)[:200]), {"case": c})
             hrecs.append(None)
             hexprs.append("gz_heom_L 1%nat 1%nat [::]")
+    # propagator loop: scripted expm (a permutation channel) and distance test
+    ecases = [gen_expm_case(rng) for _ in range(10 if quick else 80)]
+    erecs = []
+    for c in ecases:
+        try:
+            erecs.append(impl_expm(c))
+        except Exception as e:
+            ctx.violation("corr:steadystate_propagator", "raises:" + type(e).__name__,
+                          "steadystate(propagator) with scripted expm raised %s: %s"
+                          % (type(e).__name__, str(e)[:200]), {"case": c})
+            erecs.append(None)
+    try:
+        eexprs = []
+        for c in ecases:
+            eexprs.append("expm_result %d%%nat (fun k => (%d%%nat <= k))" % (c["max_iter"], c["kconv"]))
+            eexprs.append("[seq gz_sq_iter %d%%nat %s k | k <- iota 0 %d]" % (
+                c["n"] ** 2, gzmat(expm_P(c)), min(c["kconv"], c["max_iter"] - 1) + 1))
+        evals = vlib.coq_eval_values("cases_C18_e", HEADER, eexprs, chunk=40)
+        for i, (c, rec) in enumerate(zip(ecases, erecs)):
+            if rec is None:
+                continue
+            mres = vlib.parse_coq_value(evals[2 * i])
+            Ps = [pmat(m) for m in vlib.parse_coq_value(evals[2 * i + 1])]
+            ctx.count_case(("expm", json.dumps(c, sort_keys=True)))
+            ctx.cov["traces_validated_against_impl"] += 1
+            model_raises = mres is None
+            bad = None
+            if model_raises != rec["raised"]:
+                bad = "model says %s, implementation %s" % (
+                    "raise" if model_raises else "return in iteration %s" % mres[1],
+                    "raised" if rec["raised"] else "returned")
+            elif not model_raises:
+                k = mres[1]
+                if rec["dist_calls"] != k + 1 or rec["expm_calls"] != 1:
+                    bad = "iteration count: %d distance tests for return in iteration %d" % (
+                        rec["dist_calls"], k)
+                else:
+                    n = c["n"]
+                    x = np.array([[complex(a, b) for a, b in row] for row in c["rho"]])
+                    for j in range(k + 1):
+                        y = (Ps[j] @ x.reshape(-1, order="F")).reshape((n, n), order="F")
+                        x = (y + y.conj().T) / (2 * np.trace(y))
+                    if not np.array_equal(x, rec["out"]):
+                        bad = "returned state is not N(P^(2^k) ... N(P rho))"
+            if bad:
+                corr_violation("corr:steadystate_propagator", "loop",
+                               "propagator loop: " + bad, {"case": c})
+    except RuntimeError as e:
+        ctx.violation("corr:C18:model-eval", "coqc-expm", "model evaluation failed",
+                      {"log": str(e)}, found_input=False)
     ndsp = 40 if quick else 300
     dcs = [gen_dispatch_case(rng) for _ in range(ndsp)]
     # the decision table completely: every flag class for every routine
@@ -1765,6 +1910,13 @@ def run(ctx):
                 continue
             ctx.count_case(("null", json.dumps(c, sort_keys=True)))
             ctx.cov["traces_validated_against_impl"] += 1
+            if c["method"] == "eigen":
+                mcalls, v = list(v[0]), v[1]
+                if mcalls != rec.get("eig_calls"):
+                    corr_violation("corr:steadystate_eigen", "fallback-decision",
+                                   "_steadystate_eigen called the eigensolver with sparse=%s, the "
+                                   "model says %s (sparse=%s, eigenvalue test fails=%s)"
+                                   % (rec.get("eig_calls"), mcalls, c["sparse"], c["big"]), {"case": c})
             mV, md = pmat(v[0]), pz(v[1])
             if c["method"] == "power":
                 mres = vlib.parse_coq_value(lvals[li])
